@@ -335,6 +335,13 @@ func main() {
 	}
 	addP("disnest", progen.DisNest(progen.DisNestParams{Levels: []string{"p", "q", "c"}, Sib: [2]string{"r", "s"}, Vals: 0b010000}))
 	addP("files", progen.FileFlow(progen.FileParams{Out: "ms", Proj: "f", Prod: "filew", ConsMap: true, Late: true, Retain: "pipe", TopOut: true, Mode: "rolling", Size: 2}))
+	// pipelines whose calls are written out of dependency order: a chain of
+	// four calls plus a call that depends on its first two links, in every
+	// one of the 120 orders (the compiler sorts the calls before checking and
+	// formatting them)
+	for _, pm := range permutations(5) {
+		progs = append(progs, prog{name: fmt.Sprintf("order:%v", pm), src: orderProgram(pm)})
+	}
 	// fixtures of the repository
 	repo := os.Getenv("REPO")
 	if repo == "" {
@@ -408,7 +415,7 @@ func main() {
 		r.Finish()
 	}
 	if !ev.IsWorker() {
-		r.Rule = fmt.Sprintf("%d programs (16 hand-written programs with wide map/struct literals, several split arguments, typed-map forks and 2-4 simultaneous errors of each error family; 8 programs of the runtime families; the repository's fixtures): for each, the language outputs (compile error text, formatted text, serialized call graph) are recomputed with EVERY single dynamic map-iteration occurrence (>=2 keys) in packages syntax/refactoring/core reversed and rotated; "+
+		r.Rule = fmt.Sprintf("%d programs (a pipeline of five calls - a chain of four and a side branch - written in each of the 120 possible orders; 16 hand-written programs with wide map/struct literals, several split arguments, typed-map forks and 2-4 simultaneous errors of each error family; 8 programs of the runtime families; the repository's fixtures): for each, the language outputs (compile error text, formatted text, serialized call graph) are recomputed with EVERY single dynamic map-iteration occurrence (>=2 keys) in packages syntax/refactoring/core reversed and rotated; "+
 			"for the runtime-family programs the whole pipestance is re-run likewise and fork ids (job names), recorded per-fork invocations, job arguments and final outputs compared; every output must be byte-identical to the default-order run; plus the default run in two separate processes. "+
 			"distinct = distinct (program, occurrence, permutation); non-trivial = the occurrence has at least 2 keys", len(progs))
 		r.Set("programs", len(progs))
@@ -499,6 +506,42 @@ func main() {
 		}
 	}
 	r.Done()
+}
+
+func permutations(n int) [][]int {
+	var out [][]int
+	var rec func(cur []int, used int)
+	rec = func(cur []int, used int) {
+		if len(cur) == n {
+			out = append(out, append([]int{}, cur...))
+			return
+		}
+		for i := 0; i < n; i++ {
+			if used&(1<<i) == 0 {
+				rec(append(cur, i), used|1<<i)
+			}
+		}
+	}
+	rec(nil, 0)
+	return out
+}
+
+func orderProgram(pm []int) string {
+	calls := []string{
+		"    call ONE as STEP0(\n        x = self.v,\n    )\n",
+		"    call ONE as STEP1(\n        x = STEP0.y,\n    )\n",
+		"    call ONE as STEP2(\n        x = STEP1.y,\n    )\n",
+		"    call ONE as STEP3(\n        x = STEP2.y,\n    )\n",
+		"    call TWO as SIDE(\n        x = STEP0.y,\n        z = STEP1.y,\n    )\n",
+	}
+	var b strings.Builder
+	b.WriteString("stage ONE(\n    in  int x,\n    out int y,\n    src comp \"one\",\n)\n\nstage TWO(\n    in  int x,\n    in  int z,\n    out int y,\n    src comp \"two\",\n)\n\npipeline TOP(\n    in  int v,\n    out int r,\n    out int s,\n)\n{\n")
+	for _, j := range pm {
+		b.WriteString(calls[j])
+		b.WriteString("\n")
+	}
+	b.WriteString("    return (\n        r = STEP3.y,\n        s = SIDE.y,\n    )\n}\n\ncall TOP(\n    v = 1,\n)\n")
+	return b.String()
 }
 
 func hash(s string) uint64 {
